@@ -32,6 +32,14 @@ TRUSTED = [
 ]
 
 
+def note_broken(ck, msg):
+    """a broken tie / cross-check; the list is capped so that a systematic breakage stays readable"""
+    if len(ck.broken) < 25:
+        ck.broken.append(msg)
+    elif len(ck.broken) == 25:
+        ck.broken.append("... further broken cross-checks suppressed")
+
+
 # ---------------------------------------------------------------------- trace text format (tracesink.rs)
 def esc(s):
     o = ['"']
@@ -174,13 +182,60 @@ def gen_eof_in_mode(rng):
     return pre + "".join(rng.choice(GENERAL + FRAMESET + [" ", "x", "</html>", "</body>"]) for _ in range(rng.randint(0, 3)))
 
 
+BLOCKS = ["<p>", "<div>", "<li>", "<table><tr><td>", "<button>", "<address>", "<h1>", "<blockquote>", "<center>", "<ul><li>",
+          "<dl><dd>", "<marquee>", "<object>", "<applet>", "<table><caption>", "<svg><foreignObject>", "<math><mtext>",
+          "<template>", "<select>", "<fieldset>", "<form>", "<pre>", "<table>", "<td>"]
+
+
+def gen_adoption(rng):
+    """formatting elements opened, block-level / special elements nested inside, formatting end tags out of order:
+    the adoption agency algorithm with furthest blocks, inner-loop clones, foster parenting, Noah's Ark clause"""
+    out = []
+    opened = []
+    for _ in range(rng.randint(1, 5)):
+        f = rng.choice(FMT)
+        opened.append(f)
+        out.append("<%s%s>" % (f, rng.choice(["", "", " a=1", " a=1 b=2", " href=x"])))
+        if rng.random() < 0.4:
+            out.append(rng.choice(["x", " ", "y z"]))
+    for _ in range(rng.randint(0, 3)):
+        out.append(rng.choice(BLOCKS))
+        if rng.random() < 0.5:
+            f = rng.choice(FMT)
+            opened.append(f)
+            out.append("<%s>" % f)
+        if rng.random() < 0.5:
+            out.append(rng.choice(["1", "2", " "]))
+    rng.shuffle(opened)
+    for f in opened[:rng.randint(1, len(opened))]:
+        out.append("</%s>" % f)
+        if rng.random() < 0.5:
+            out.append(rng.choice(["t", " ", "<p>", "</p>", "</div>", "</table>", "<b>", "</td>"]))
+    return "".join(out)
+
+
+DOC_PREFIX = ["<!--a-->", "<!DOCTYPE html>", " ", "\n", "<!--b-->", "<!DOCTYPE x>", "<!doctype html SYSTEM 'about:legacy-compat'>",
+              "<!DOCTYPE html PUBLIC \"-//W3C//DTD XHTML 1.0 Transitional//EN\" \"u\">", "<?pi?>", "<!-->", "x", "</p>", "<html>",
+              "<!--c--><!--d-->", "<![CDATA[x]]>", "\0", "&amp;"]
+DOC_SUFFIX = ["</body>", "</html>", "<!--z-->", " ", "x", "</html><!--y-->", "</body><!--x-->", "</html> ", "</html>x", "<p>",
+              "<!DOCTYPE late>", "</frameset>", "<noframes>", "</noframes>", "\n", "</html><frameset>", "</html><noframes>"]
+
+
 def gen_html_input(rng):
     r = rng.random()
     if r < 0.10:
-        return T.gen_html(rng)
-    if r < 0.20:
-        return gen_eof_in_mode(rng)
-    return gen_soup(rng, rng.choice(THEMES), rng.randint(2, 22))
+        s = T.gen_html(rng)
+    elif r < 0.20:
+        s = gen_eof_in_mode(rng)
+    elif r < 0.34:
+        s = gen_adoption(rng)
+    else:
+        s = gen_soup(rng, rng.choice(THEMES), rng.randint(2, 22))
+    if rng.random() < 0.2:
+        s = "".join(rng.choice(DOC_PREFIX) for _ in range(rng.randint(1, 4))) + s
+    if rng.random() < 0.2:
+        s = s + "".join(rng.choice(DOC_SUFFIX) for _ in range(rng.randint(1, 4)))
+    return s
 
 
 def gen_xml_input(rng):
@@ -258,7 +313,7 @@ def build(ck, extra_targets=()):
     if os.path.exists(os.path.join(ROOT, "coq", "Extract", "sinkspec_model.ml")):
         model = ck.ocaml_build("sinkspec_model", "sinkspec_model.ml", "sinkspec_driver.ml")
     else:
-        ck.broken.append("coq/Extract/sinkspec_model.ml was not produced (Coq build of Extract/ExtractSinkSpec.v failed)")
+        note_broken(ck, "coq/Extract/sinkspec_model.ml was not produced (Coq build of Extract/ExtractSinkSpec.v failed)")
     return proofs_ok, os.path.join(bindir, "sinkmon"), model
 
 
@@ -463,31 +518,87 @@ def classify(case, trace, viols):
     return "%s:%s:%s" % (kind, clause, call)
 
 
-def run(ck):
-    proofs_ok, impl, model = build(ck)
-    if model is None:
-        return ck.finish(trusted=TRUSTED)
-    rng = ck.rng
-    if ck.replay:
-        rp = json.load(open(ck.replay))
-        cases = [rp["case"]] if "case" in rp else []
-    else:
-        cases = load_corpus("c05.txt")
-        n = 120000 if ck.quick else 1500000
-        cases += gen_cases(rng, n)
-    res = run_all(ck, impl, model, cases, ["--all"])
+# ---------------------------------------------------------------------- differential test of the judge's glue
+FIXED_OPS = ("create_element", "create_comment", "create_pi", "get_template_contents")
 
-    stats = {"html": 0, "frag": 0, "xml": 0, "tree_builder_panics": 0, "traces_judged": 0, "calls_judged": 0,
-             "contract_ok": 0, "contract_bad": 0, "one_char_chunked": 0, "with_scripting": 0}
-    hist, clause_hist, ctx_seen = {}, {}, set()
-    nontriv = set()
-    samples = []
-    failing = []
+
+def mutate_trace(rng, ops):
+    """a recorded call sequence with a few calls duplicated, deleted or pointed at another handle (the calls that
+    number handles are left alone): mostly contract-breaking sequences the tree builders never produce"""
+    ops = list(ops)
+    for _ in range(rng.randint(1, 3)):
+        idx = [i for i, o in enumerate(ops) if o.split(" ", 1)[0] not in FIXED_OPS]
+        if not idx:
+            break
+        i = rng.choice(idx)
+        r = rng.random()
+        if r < 0.3:
+            ops.insert(rng.randint(i, len(ops)), ops[i])
+        elif r < 0.55:
+            del ops[i]
+        else:
+            created = sum(1 for o in ops[:i] if o.split(" ", 1)[0] in FIXED_OPS[:3])
+            w = ops[i].split(" ")
+            pos = [k for k in range(1, len(w)) if w[k].isdigit() and not (w[0] == "set_current_line")
+                   and not (k >= 2 and w[k - 1] == "t")]
+            if w[0] in ("add_attrs_if_missing", "attach_declarative_shadow"):
+                pos = [k for k in pos if k <= (1 if w[0] == "add_attrs_if_missing" else 2)]
+            if pos:
+                w[rng.choice(pos)] = str(rng.randint(0, created))
+                ops[i] = " ".join(w)
+    return ops
+
+
+def glue_differential(ck, impl, model, traces, rng, n):
+    """mutated traces: the arena sink's first breach and the Coq monitor's first breach must agree (call index and
+    clause), and on accepted sequences DomSpec.run and the arena sink must build the same forest"""
+    muts = []
+    while len(muts) < n:
+        t = rng.choice(traces)
+        m = " ; ".join(mutate_trace(rng, trace_ops(t)))
+        if m:
+            muts.append(m)
+    io = [parse_impl(l) for l in ck.run_lines(impl, [], ["R " + m for m in muts])]
+    mo = [parse_model(l) for l in ck.run_lines(model, ["--all"], muts)]
+    st = {"mutated_traces": len(muts), "both_accept": 0, "both_reject_same_call_and_clause": 0, "skipped_kind_only_clause_first": 0,
+          "first_clauses": {}}
+    for m, a, b in zip(muts, io, mo):
+        if "bad" in a or "bad" in b or a.get("apanic"):
+            note_broken(ck, "glue differential: no result for mutated trace %r: %s / %s" % (m[:200], a.get("bad", a.get("trace", ""))[:100], b.get("bad", "")[:100]))
+            continue
+        viols = coq_violations(b["CONTRACT"])
+        ab = []
+        if a["breaches"] not in ("ok", "-"):
+            for x in a["breaches"].split():
+                i, _, what = x.partition(":")
+                cl = next((v for k, v in ARENA_TO_CLAUSE.items() if what.endswith(k)), "?" + what)
+                # Replayer::new itself calls get_document once: the arena's call counter is one ahead
+                ab.append((int(i) - 1, cl))
+        first_a = ab[0] if ab else None
+        first_c = (viols[0][0], viols[0][1]) if viols else None
+        if first_c is not None and first_c[1] in COQ_ONLY and (first_a is None or first_c[0] <= first_a[0]):
+            st["skipped_kind_only_clause_first"] += 1
+            continue
+        if first_a != first_c:
+            note_broken(ck, "glue differential: arena sink's first breach %s, Coq monitor's first breach %s on mutated trace %r" % (
+                first_a, first_c, m[:600]))
+            continue
+        if first_c is None:
+            st["both_accept"] += 1
+            if b["TREE"] != a["aforest"] and "maybe_clone_an_option" not in m:
+                note_broken(ck, "glue differential: DomSpec.run and the arena sink build different forests for accepted trace %r" % m[:600])
+        else:
+            st["both_reject_same_call_and_clause"] += 1
+            st["first_clauses"][first_c[1]] = st["first_clauses"].get(first_c[1], 0) + 1
+    return st
+
+
+def judge_batch(ck, cases, res, stats, hist, clause_hist, ctx_seen, nontriv, samples, by_class):
     for case, (a, b) in zip(cases, res):
         f = case_fields(case)
         stats[f["kind"]] += 1
         if "bad" in a:
-            ck.broken.append("sinkmon produced no result for %r: %s" % (case[:300], a["bad"]))
+            note_broken(ck, "sinkmon produced no result for %r: %s" % (case[:300], a["bad"]))
             continue
         if a["apanic"]:
             # the tree builder itself panicked (also with a sink that never panics): C04's subject
@@ -497,7 +608,7 @@ def run(ck):
                     a["trace"][:160], json.dumps(describe(case), ensure_ascii=True)[:300]))
             continue
         if "bad" in b:
-            ck.broken.append("model driver failed on the trace of %r: %s" % (case[:300], b["bad"]))
+            note_broken(ck, "model driver failed on the trace of %r: %s" % (case[:300], b["bad"]))
             continue
         stats["traces_judged"] += 1
         ncalls = len(trace_ops(a["trace"]))
@@ -510,18 +621,18 @@ def run(ck):
             ctx_seen.add(f["ctx"])
         op_hist(a["trace"], hist)
         if nontrivial(a["trace"]):
-            nontriv.add(a["trace"])
+            nontriv.add(hash(a["trace"]))
         if len(samples) < 3 and f["kind"] == "html":
             samples.append(describe(case)["input"][:200])
         viols = coq_violations(b["CONTRACT"])
         # consistency of the extracted functions: monitor ok => DomSpec.contract_run ok (theorem C05_implies_domspec)
         if not viols and b["DOMSPEC"] != "ok":
-            ck.broken.append("Contract.monitor accepts a trace that DomSpec.contract_run rejects: %r" % case[:300])
+            note_broken(ck, "Contract.monitor accepts a trace that DomSpec.contract_run rejects: %r" % case[:300])
         # cross-check 1: the arena sink's own notes name the same clauses
         ac = arena_clauses(a["breaches"])
         cc = set(v[1] for v in viols) - COQ_ONLY
         if ac != cc:
-            ck.broken.append("arena sink and Coq monitor disagree on %r: arena %s, Coq %s" % (
+            note_broken(ck, "arena sink and Coq monitor disagree on %r: arena %s, Coq %s" % (
                 case[:300], sorted(ac), sorted(set(v[1] for v in viols))))
         # cross-check 2: both sinks saw the same calls / built the same forest
         if a["rpanic"]:
@@ -530,24 +641,62 @@ def run(ck):
                              {"kind": "failing-input", "case": case, "input": describe(case)}, case_class="rcdom-panic-without-breach")
         else:
             if a["rtrace"] != a["trace"]:
-                ck.broken.append("TraceSink<RcDom> and TraceSink<ArenaSink> recorded different calls for %r" % case[:300])
+                note_broken(ck, "TraceSink<RcDom> and TraceSink<ArenaSink> recorded different calls for %r" % case[:300])
             elif a["rforest"] != a["aforest"] and "maybe_clone_an_option" not in a["trace"] and not viols:
-                ck.broken.append("RcDom and the arena sink built different forests for %r" % case[:300])
+                note_broken(ck, "RcDom and the arena sink built different forests for %r" % case[:300])
             elif not viols and b["TREE"] != a["aforest"] and "maybe_clone_an_option" not in a["trace"]:
-                ck.broken.append("DomSpec.run and the arena sink built different forests for %r" % case[:300])
+                note_broken(ck, "DomSpec.run and the arena sink built different forests for %r" % case[:300])
         if viols:
             stats["contract_bad"] += 1
             for v in viols:
                 clause_hist[v[1]] = clause_hist.get(v[1], 0) + 1
-            failing.append((case, a, b, viols))
+            items = by_class.setdefault(classify(case, a["trace"], viols), [])
+            if len(items) < 200:
+                items.append((case, a, b, viols))
+            else:
+                items.append(None)
         else:
             stats["contract_ok"] += 1
 
-    # report: one (shrunk) witness per class
+
+
+def run(ck):
+    proofs_ok, impl, model = build(ck)
+    if model is None:
+        return ck.finish(trusted=TRUSTED)
+    rng = ck.rng
+    if ck.replay:
+        rp = json.load(open(ck.replay))
+        batches = [[rp["case"]] if "case" in rp else []]
+    else:
+        total = 120000 if ck.quick else 1500000
+        bsz = 60000
+        batches = [None] * ((total + bsz - 1) // bsz)
+
+    stats = {"html": 0, "frag": 0, "xml": 0, "tree_builder_panics": 0, "traces_judged": 0, "calls_judged": 0,
+             "contract_ok": 0, "contract_bad": 0, "one_char_chunked": 0, "with_scripting": 0}
+    hist, clause_hist, ctx_seen = {}, {}, set()
+    nontriv = set()
+    samples = []
     by_class = {}
-    for case, a, b, viols in failing:
-        by_class.setdefault(classify(case, a["trace"], viols), []).append((case, a, b, viols))
-    for cls, items in sorted(by_class.items()):
+    evaluations = 0
+    for bi, cases in enumerate(batches):
+        if cases is None:
+            cases = (load_corpus("c05.txt") if bi == 0 else []) + gen_cases(rng, bsz)
+        evaluations += len(cases)
+        res = run_all(ck, impl, model, cases, ["--all"])
+        judge_batch(ck, cases, res, stats, hist, clause_hist, ctx_seen, nontriv, samples, by_class)
+        if bi == 0 and not ck.replay:
+            good = [a["trace"] for a, b in res if "bad" not in a and not a["apanic"] and "bad" not in b and b["CONTRACT"] == "ok"
+                    and nontrivial(a["trace"])]
+            if good:
+                ck.cov["glue_differential"] = glue_differential(ck, impl, model, good, rng, 20000 if ck.quick else 200000)
+        if len(ck.broken) > 20:
+            break
+
+    # report: one (shrunk) witness per class
+    for cls, all_items in sorted(by_class.items()):
+        items = [it for it in all_items if it is not None]
         case, a, b, viols = min(items, key=lambda it: len(case_input(it[0])))
 
         def same(a2, b2, cls=cls, case=case):
@@ -562,12 +711,12 @@ def run(ck):
         k = v2[0][0]
         ck.violation(
             "TreeSink contract breached (%s) by call #%d `%s` - %d failing cases of this class" % (
-                v2[0][1], k, ops[k][:120] if k < len(ops) else "?", len(items)),
+                v2[0][1], k, ops[k][:120] if k < len(ops) else "?", len(all_items)),
             {"kind": "failing-input", "case": small, "input": describe(small), "violations": v2[:10],
              "trace": ops[:k + 1][-12:], "original_case": case}, case_class=cls)
 
     ck.cov.update({
-        "evaluations": len(cases), "distinct_nontrivial": len(nontriv),
+        "evaluations": evaluations, "distinct_nontrivial": len(nontriv),
         "rule": "one evaluation = one parse (html5ever document / fragment, xml5ever) of a generated input under one "
                 "chunking and option setting, every TreeSink call of which is judged by the extracted Contract.monitor; "
                 "non-trivial = distinct call traces containing at least one of " + ", ".join(RARE),
